@@ -92,6 +92,8 @@ def model_post(case: dict, lines: list[str]) -> list[str]:
 
 
 def oracle(case: dict, real: list[str]) -> str | None:
+    if "crashed" in real:
+        return "RuntimeError escaped from the consumer (write buffer exhausted)"
     packets = [sers.dec_val(v) for v in case["packets"]]
     exp = []
     for p in packets + packets[-1:]:
